@@ -182,7 +182,7 @@ class Machine(object):
     """Invoke SUT code, classify the outcome, digest the output."""
     try:
       out = f(*a, **k)
-    except Exception as e:
+    except (Exception, world.SimInterrupt) as e:
       ev["outcome"] = "exc:" + type(e).__name__
       live["exc"] = e
       live["out"] = None
@@ -279,6 +279,32 @@ class Machine(object):
       kwargs["calibration_params"] = dict(ex["calibration_params"])
     return D, via, args, kwargs
 
+  def _count_crash_points(self, h, args, kwargs):
+    """Dry run of the same fit on a durable copy of the estimator and of its
+    arguments, counting the line events inside metric_learn: the number of
+    points at which the real call can be interrupted.  Leaves no trace in the
+    ambient RNG state."""
+    import random as pyrandom
+    st_np, st_py = np.random.get_state(), pyrandom.getstate()
+    eig = (world.EIGSH.calls, world.EIGSH.forced)
+    n = 0
+    try:
+      est2 = pickle.loads(pickle.dumps(h.est))
+      a2, k2 = copy.deepcopy(args), copy.deepcopy(kwargs)
+      with world.observed(), world.LineInterrupter() as li0:
+        try:
+          est2.fit(*a2, **k2)
+        except Exception:
+          pass
+      n = li0.n
+    except Exception:
+      n = 0
+    finally:
+      np.random.set_state(st_np)
+      pyrandom.setstate(st_py)
+      world.EIGSH.calls, world.EIGSH.forced = eig
+    return n
+
   def op_fit(self, op, ev, live):
     h = self.handles.get(op["h"])
     if h is None or h.est is None:
@@ -293,11 +319,34 @@ class Machine(object):
     store_calls0 = len(h.store.calls) if h.store else 0
     live["state_before"] = state_digest(h.est)
     fired0 = len(h.store.fired) if h.store else 0
+    intr = op.get("interrupt")
+    li = None
+    if intr:
+      n_points = self._count_crash_points(h, args, kwargs)
+      at = min(int(float(intr.get("frac", 0.5)) * n_points), max(n_points - 1, 0))
+      li = world.LineInterrupter(at=at, exc=intr.get("exc", "KeyboardInterrupt"))
     with world.DrawObserver() as obs, world.GlassoSeam() as gs, world.ConvertObserver() as co:
-      out = self._call(ev, live, h.est.fit, *args, **kwargs)
+      if li is not None:
+        with li:
+          out = self._call(ev, live, h.est.fit, *args, **kwargs)
+      else:
+        out = self._call(ev, live, h.est.fit, *args, **kwargs)
     if type(live.get("exc")).__name__ == "NonPSDError":
       live["psd_within_rounding"] = co.psd_within_rounding()
     live["fault_fired"] = bool(h.store and len(h.store.fired) > fired0)
+    if li is not None:
+      ev["interrupt"] = [li.at, n_points, li.exc, li.where]
+      self.cov["interrupts_armed"] += 1
+      if li.fired:
+        live["fault_fired"] = True
+        live["interrupted"] = True
+        self.cov["interrupts_fired"] += 1
+        self.cov["interrupt_in_" + str(li.where).split(":")[0]] += 1
+        if ev["outcome"] == "ok":
+          # the library swallowed the interruption (an except clause on the
+          # way): the call returned, but nothing is asserted about its result
+          ev["outcome"] = "swallowed"
+          self.cov["interrupts_swallowed"] += 1
     if live["fault_fired"]:
       ev["fault_fired"] = True
       self.cov["faults_fired"] += 1
